@@ -235,14 +235,14 @@ func trunc(s string, n int) string {
 func c05Spec() propSpec {
 	return propSpec{
 		prop: "C05", test: "TestVerifC05AuthenticVotes",
-		rule: "histories of 3-40 ops against one real Mirror (rounds macros, proposed headers, vote messages with per-signature corruption for committing/voting/next/future rounds, duplicates, concurrent groups, state machine entrances/actions, consumer stalls); non-trivial = some vote message mixed >=1 authentic with >=1 unauthentic signature, or was all-invalid for a hash the node had not seen; distinct = fingerprint of (config, op list)",
+		rule: "histories of 3-40 ops against one real Mirror (rounds macros, proposed headers, vote messages with per-signature corruption for committing/voting/next/future rounds, votes cast by the previous height's validator set under its own key hash, duplicates, concurrent groups, state machine entrances/actions, consumer stalls); non-trivial = some vote message mixed >=1 authentic with >=1 unauthentic signature, or was all-invalid for a hash the node had not seen; distinct = fingerprint of (config, op list)",
 		profile: genProfile{
 			w:              map[string]int{"ph": 3, "vote": 12, "round": 3, "sment": 1, "smact": 1, "stall": 1, "read": 1, "conc": 2},
 			phVariants:     []int{phFresh, phFresh, phAltNext, phBadSig, phAnnotated},
 			pcpVariants:    []int{pcpExact, pcpExact, pcpExact, pcpCorruptSig, pcpBelowQuorum, pcpWrongPKH, pcpOtherRoundCert, pcpOtherRoundCert, pcpExtraNil, pcpForgedSide, pcpForgedSide},
 			voteCorr:       allVariants(vcVariants),
 			replayVariants: []int{rvHonest},
-			pkhVariants:    []int{0, 0, 0, 0, 0, 1, 2},
+			pkhVariants:    []int{0, 0, 0, 0, 0, 1, 2, 3, 3},
 			minOps:         3, maxOps: 40,
 			dh: []int{0, 0, 0, 0, -1, 1, 2, -2}, dr: []int{0, 0, 0, 1, 1, 2, 3, -1},
 			multiTarget: true,
